@@ -50,6 +50,7 @@ var MetaShapes = []map[string]string{
 	{"b": "y", "c": ""},
 	{"": "empty-key"},
 	{"k1": "v1", "k2": "v2", "k3": "v3", "k4": "v4", "k5": "v5"},
+	{"a": "", "k1": ""},
 	{"a": "\xff\xfe non-utf8"},
 }
 
